@@ -110,8 +110,15 @@ def ts_epoch(s):
         return None
     z = m.group(8)
     if z and z != "Z":
-        return None   # offsets are not produced by any generator here
+        # an explicit offset: the instant is the wall-clock reading minus the offset
+        sign = 1 if z[0] == "+" else -1
+        base -= sign * (int(z[1:3]) * 3600 + int(z[4:6]) * 60)
     return base
+
+
+def has_offset(s):
+    m = _TS.match((s or "").strip())
+    return bool(m and m.group(8) and m.group(8) != "Z")
 
 
 def fmt_ts(epoch, style="Z"):
@@ -126,6 +133,13 @@ def fmt_ts(epoch, style="Z"):
         return s
     if style == "fracnozone":
         return s + ".5"
+    if style.startswith("off"):
+        # e.g. "off+02:00", "off-05:00", "off+05:30f": same instant written with a UTC offset
+        z = style[3:9]
+        sign = 1 if z[0] == "+" else -1
+        delta = sign * (int(z[1:3]) * 3600 + int(z[4:6]) * 60)
+        w = _t.strftime("%Y-%m-%dT%H:%M:%S", _t.gmtime(epoch + delta))
+        return w + (".500" if style.endswith("f") else "") + z
     return s + "Z"
 
 
